@@ -10,7 +10,7 @@ TRUSTED_BASE = ['Coq 8.16.1 kernel (coqc); coqchk re-check in setup; vm_compute 
  'rustc/cargo as installed']
 PROPS = {}
 for _f in sorted(glob.glob(os.path.join(os.path.dirname(os.path.abspath(__file__)), 'spec.d', 'C*.py'))):
-    _ns = {}
+    _ns = {'__file__': _f}
     exec(open(_f).read(), _ns)
     if _ns.get('PROPS_ENTRY'): PROPS[os.path.basename(_f)[:-3]] = _ns['PROPS_ENTRY']
 HOOK_COMMITS = ['d6ca0bd', 'd91ee48', '12cd8cb', '967fdcb', '51b3fc8']
